@@ -1011,6 +1011,14 @@ pub fn directed() -> Vec<Request> {
             out.push(Request { mode: Mode::Derive, attr: String::new(), item: format!("#[derive_ex(PartialOrd, PartialEq, Hash, Clone)] {item}") });
         }
     }
+    // impl path: every self type of the impl grid x every where predicate of the dictionary
+    // (predicates that mention `Self`, with and without a `for<..>` binder of their own)
+    for st in ["X", "&X", "&'a X", "&mut X", "dyn A + B", "&(dyn A + B)", "X<T>", "[X; 2]", "(X, X)", "Box<dyn A + B>", "*const X", "&&X", "&[X]", "fn(X) -> X"] {
+        for w in crate::gen::WHERE_PREDS {
+            out.push(Request { mode: Mode::Attr, attr: "Add, AddAssign".into(), item: format!("impl<'a, T> Add for {st} where {w} {{ type Output = X; }}") });
+            out.push(Request { mode: Mode::Attr, attr: "Sub".into(), item: format!("impl<'a, T> SubAssign<&Self> for {st} where {w}, T: Copy {{ }}") });
+        }
+    }
     // normalise to the printed token form and drop what is not a valid request
     let mut res = Vec::new();
     let mut seen = std::collections::BTreeSet::new();
